@@ -113,6 +113,8 @@ def flag_values(site: Site) -> List[Tuple[Optional[str], Node, str]]:
             v = def_value(d, e.id)
             if isinstance(v, ast.Constant) and isinstance(v.value, str):
                 out.append((v.value, d, "var"))
+            elif isinstance(v, ast.IfExp):
+                out.append(("?ifexp", d, "ifexp"))
             else:
                 out.append((None, d, "var?"))
         return out or [(None, site.node, "undefined-var")]
